@@ -80,9 +80,11 @@ func parkedState(g gInfo) bool {
 // of the system under observation (session loops, accept loop, the harness's own peer goroutines) is parked.
 type census struct {
 	send, recv map[string]int
-	unknown    int  // loop goroutines whose receiver could not be read
-	allParked  bool // no observed goroutine is runnable / running / in a transient wait
-	acceptors  int
+	unknown    int             // loop goroutines whose receiver could not be read
+	allParked  bool            // no observed goroutine is runnable / running / in a transient wait
+	acceptors  int             // goroutines inside any (*Server).loopAccept
+	acc        map[string]int  // ... keyed by the *Server printed in the frame
+	accSleep   map[string]bool // ... that one is sleeping (backing off after a failed Accept)
 	busy       string
 }
 
@@ -109,7 +111,7 @@ func setRetired(p string, v bool) {
 }
 
 func takeCensus() census {
-	c := census{send: map[string]int{}, recv: map[string]int{}, allParked: true}
+	c := census{send: map[string]int{}, recv: map[string]int{}, acc: map[string]int{}, accSleep: map[string]bool{}, allParked: true}
 	for _, g := range allGoroutines() {
 		switch {
 		case strings.Contains(g.body, fnLoopSend):
@@ -140,6 +142,11 @@ func takeCensus() census {
 			}
 		case strings.Contains(g.body, fnLoopAccept):
 			c.acceptors++
+			ap := frameRecv(g.body, fnLoopAccept)
+			c.acc[ap]++
+			if g.state == "sleep" {
+				c.accSleep[ap] = true
+			}
 			if g.state != "IO wait" {
 				c.allParked = false
 				c.busy = g.body
